@@ -23,12 +23,20 @@ ASSUMPTIONS = ["per-connection FIFO delivery (TCP)", "PYTHONHASHSEED=0 is part o
 
 def generate(seed, tier):
     # the derivations are observed on the wire of immutable uploads and of mutable creates/writes alike
-    if seed % 2:
+    if seed % 4 == 1:
         return mutsim.gen_single(seed, tier, "C17")
+    if seed % 4 == 2:
+        return immsim.gen_upfault(seed, tier, "C17")       # grids with full / read-only / slow servers, pre-existing shares
+    if seed % 4 == 3:
+        return immsim.gen_checkrepair(seed, tier, "C17")   # check --add-lease, repair
     return immsim.gen_roundtrip(seed, tier, "C17")
 
 
 def execute(case):
     if case.get("engine") == "mutsim":
         return mutsim.exec_single(case)
+    if case.get("profile") == "upfault":
+        return immsim.exec_upfault(case)
+    if case.get("profile") == "checkrepair":
+        return immsim.exec_checkrepair(case)
     return immsim.exec_roundtrip(case)
